@@ -181,6 +181,7 @@ def enum_contents(seed):
     seps = ["vt\x0bx", "ff\x0cx", "fs\x1cx", "gs\x1dx", "rs\x1ex", "nel\x85x", "ls\u2028x", "ps\u2029x"]
     names = ["/" + "/".join(rnd.sample(frags[:-1], k)) for k in (1, 2, 3) for _ in range(12)]
     names += ["/" + f for f in seps] + ["/" + "/".join(rnd.sample(seps + frags[:4], 2)) for _ in range(6)]
+    names += ["//opt/two lead", "///opt/three lead", "////opt/four", "/opt//inner//double", "/opt/./dot/../up"]   # whatever the constructor makes of these, it comes back
     targets = ["t", "a b", "c ", " d", "x -> y", "../up dir/f ", "vt\x0bx", "nel\x85 y", "ls\u2028x"]
     cases, fails = 0, []
     with tempfile.TemporaryDirectory(dir="/var/tmp") as d:
